@@ -49,6 +49,55 @@ const pinnedSchema = `CREATE TABLE IF NOT EXISTS chkpts (
 // legacyS1 is the request whose acceptance the legacy file records, and writeLegacyDB writes that file without the code under verification.
 var legacyS1 = world.Req{Auth: "good", Old: 0, B: 0, N: 1, Pf: world.Pf{K: "empty"}}
 
+// rewriteAsRelease replaces a SQLite file by one with the same rows written the way the pinned release writes them (pinned schema, log ID
+// bound as a Go string, i.e. TEXT): what the witness finds when the tree's code is started on a database the release has been running on.
+func rewriteAsRelease(path string) error {
+	if _, err := os.Stat(path); err != nil {
+		return nil // nothing stored yet
+	}
+	old, err := sql.Open("sqlite3", path)
+	if err != nil {
+		return err
+	}
+	type row struct {
+		id string
+		cp []byte
+	}
+	var rows []row
+	rs, err := old.Query("SELECT logID, chkpt FROM chkpts")
+	if err != nil {
+		old.Close()
+		return nil // no table yet
+	}
+	for rs.Next() {
+		var id, cp []byte
+		if err := rs.Scan(&id, &cp); err != nil {
+			rs.Close()
+			old.Close()
+			return err
+		}
+		rows = append(rows, row{string(id), append([]byte{}, cp...)})
+	}
+	rs.Close()
+	old.Close()
+	os.Remove(path)
+	os.Remove(path + "-journal")
+	db, err := sql.Open("sqlite3", path)
+	if err != nil {
+		return err
+	}
+	defer db.Close()
+	if _, err := db.Exec(pinnedSchema); err != nil {
+		return err
+	}
+	for _, r := range rows {
+		if _, err := db.Exec("INSERT OR REPLACE INTO chkpts (logID, chkpt, range) VALUES (?, ?, NULL)", r.id, r.cp); err != nil {
+			return err
+		}
+	}
+	return nil
+}
+
 func writeLegacyDB(path string, w *world.World) error {
 	os.Remove(path)
 	db, err := sql.Open("sqlite3", path)
